@@ -5,7 +5,7 @@ import re
 import vcheck
 
 PRELUDE = """From Coq Require Import List NArith String.
-From GV Require Import Base.Ints Base.Tr Gen.Math Gen.Kernel Model.Mirror Model.MirrorObs %s.
+From GV Require Import Base.Ints Base.Tr Gen.Math Gen.Kernel Model.Mirror Model.MirrorMgr Model.MirrorObs %s.
 Import ListNotations. Local Open Scope N_scope.
 """
 
@@ -56,9 +56,12 @@ def case_defs(c):
         if obs not in names:
             names[obs] = "ob%d_%d" % (c["idx"], len(names))
             out.append("Definition %s : tr := %s." % (names[obs], obs))
-        xop = op if op.startswith(("(XCrash", "XRestart", "(XOp")) else "(XOp %s)" % op
-        steps.append("(%s, %d, %s)" % (xop, res, names[obs]))
-    out.append("Definition case_%d := (init_state %d %s, [%s])." % (c["idx"], c["init"][0], c["init"][1], ";\n".join(steps)))
+        if op.startswith(("(MEnter", "MSMRead", "MGRead")):
+            mop = op
+        else:
+            mop = "(MK %s)" % (op if op.startswith(("(XCrash", "XRestart", "(XOp")) else "(XOp %s)" % op)
+        steps.append("(%s, %d, %s)" % (mop, res, names[obs]))
+    out.append("Definition case_%d := (ms_init %d %s, [%s])." % (c["idx"], c["init"][0], c["init"][1], ";\n".join(steps)))
     return "\n".join(out) + "\n"
 
 
@@ -218,13 +221,13 @@ MON_IMPORT = "Monitors.MirrorM"
 MON_EXPRS = {
     # name -> Gallina expression over @CASE@ returning option nat (index of the first bad step) or bool
     "c05": "first_bad c05_obs_ok 0 (obs_of (snd @CASE@))",
-    "noop": "noop_trace_bad 0 (fst @CASE@) (observe (fst @CASE@)) (snd @CASE@)",
-    "c04": "c04_trace_ok (k_init_h (fst @CASE@)) None (obs_of (snd @CASE@))",
-    "c07": "first_bad (c07_obs_ok (let v := k_init_vs (fst @CASE@) in TL [TB (vs_pkh v); TB (vs_vph v); TL (map TN (vs_keys v)); TL (map TN (vs_pows v))])) 0 (obs_of (snd @CASE@))",
-    "c10obs": "restart_obs_bad c10_restart_obs_ok 2 0 (fst @CASE@) (snd @CASE@)",
-    "c10obs_shifted": "restart_obs_bad c10_restart_obs_ok 1 0 (fst @CASE@) (snd @CASE@)",
-    "c10conv": "conv_trace_bad 2 0 (fst @CASE@) (snd @CASE@)",
-    "c10ahead": "conv_trace_bad 1 0 (fst @CASE@) (snd @CASE@)",
+    "noop": "noop_trace_bad 0 (ms_k (fst @CASE@)) (observe_m (fst @CASE@) IONone) (ksteps (snd @CASE@))",
+    "c04": "c04_trace_ok (k_init_h (ms_k (fst @CASE@))) None (obs_of (snd @CASE@))",
+    "c07": "first_bad (c07_obs_ok (let v := k_init_vs (ms_k (fst @CASE@)) in TL [TB (vs_pkh v); TB (vs_vph v); TL (map TN (vs_keys v)); TL (map TN (vs_pows v))])) 0 (obs_of (snd @CASE@))",
+    "c10obs": "restart_obs_bad c10_restart_obs_ok 2 0 (ms_k (fst @CASE@)) (ksteps (snd @CASE@))",
+    "c10obs_shifted": "restart_obs_bad c10_restart_obs_ok 1 0 (ms_k (fst @CASE@)) (ksteps (snd @CASE@))",
+    "c10conv": "conv_trace_bad 2 0 (ms_k (fst @CASE@)) (ksteps (snd @CASE@))",
+    "c10ahead": "conv_trace_bad 1 0 (ms_k (fst @CASE@)) (ksteps (snd @CASE@))",
     "c01": "first_bad (c01_obs_ok (collect_vals [] (obs_of (snd @CASE@)))) 0 (obs_of (snd @CASE@))",
 }
 
